@@ -112,7 +112,7 @@ theorem retirePriorTo_roff {s s' : Remote} {t : Nat} (hi : RInv s) (h : s.retire
 
 /-- NEW_CONNECTION_ID: accepted → the offset is the largest retire-prior-to seen, ids are handed out again
 (`Settled`); rejected → the accounting still holds for the frames already emitted -/
-theorem recvNewCid_good {fixed : Bool} {s : Remote} {seq rpt : Nat} {cid : Cid} (h : Good s s.pending) :
+theorem recvNewCid_good {fixed : Tree} {s : Remote} {seq rpt : Nat} {cid : Cid} (h : Good s s.pending) :
     (∀ s', s.recvNewCid fixed seq rpt cid = .accepted s' →
         Good s' s'.pending ∧ Leaves s s' ∧ Settled s' ∧ s'.roff = max s.roff rpt) ∧
     (∀ s', s.recvNewCid fixed seq rpt cid = .errLimit s' → Good s' s'.pending ∧ Leaves s s') := by
@@ -149,7 +149,7 @@ structure RunGood (r : RRun) : Prop where
 
 namespace RRun
 
-theorem runGood_step (fixed : Bool) (r : RRun) (o : ROp) (h : RunGood r) :
+theorem runGood_step (fixed : Remote.Tree) (r : RRun) (o : ROp) (h : RunGood r) :
     RunGood (r.step fixed o) ∧ Remote.Leaves r.s (r.step fixed o).s := by
   unfold step
   split
@@ -203,7 +203,7 @@ theorem runGood_step (fixed : Bool) (r : RRun) (o : ROp) (h : RunGood r) :
     have := Remote.retireCell_good r.s c h.good
     exact ⟨⟨this.1, Or.inr hset⟩, this.2⟩
 
-theorem runGood_foldl (fixed : Bool) (ops : List ROp) :
+theorem runGood_foldl (fixed : Remote.Tree) (ops : List ROp) :
     ∀ r : RRun, RunGood r → RunGood (ops.foldl (step fixed) r) ∧ Remote.Leaves r.s (ops.foldl (step fixed) r).s := by
   induction ops with
   | nil => intro r h; exact ⟨h, Remote.Leaves.refl _⟩
@@ -221,11 +221,11 @@ theorem runGood_init (limit : Nat) : RunGood { s := Remote.init limit } := by
   · intro c hc; simp [Remote.init] at hc
   · intro j c hc; simp [Remote.init] at hc
 
-theorem runGood_run (fixed : Bool) (limit : Nat) (ops : List ROp) : RunGood (run fixed limit ops) :=
+theorem runGood_run (fixed : Remote.Tree) (limit : Nat) (ops : List ROp) : RunGood (run fixed limit ops) :=
   (runGood_foldl fixed ops _ (runGood_init limit)).1
 
 /-- a later point of a history, seen from an earlier one -/
-theorem leaves_take (fixed : Bool) (limit : Nat) (ops : List ROp) (n : Nat) :
+theorem leaves_take (fixed : Remote.Tree) (limit : Nat) (ops : List ROp) (n : Nat) :
     Remote.Leaves (run fixed limit (ops.take n)).s (run fixed limit ops).s := by
   have : run fixed limit ops = (ops.drop n).foldl (step fixed) (run fixed limit (ops.take n)) := by
     unfold run
